@@ -92,7 +92,7 @@ class Instance:
 
                 out.append(par[0] + par[1] * float(norm.ppf(self.menu[pt.chosen])))
             else:
-                raise HarnessError(f"family {fam} not supported in generation instances")
+                out.append(None)  # other laws: the target is not reconstructed (documented full-size strings; structural oracles only)
         return out, len(draws)
 
 
@@ -162,9 +162,14 @@ def observe(inst, mg):
     for i, (text, boff, nat, gtxt) in enumerate(o.blocks):
         tr = R.token_ref(text)
         atoms = []
+        pdb = set()
         for k in range(nat):
             a = mol.GetAtomWithIdx(boff + k)
             atoms.append((a.GetAtomicNum(), a.GetFormalCharge(), a.GetIsotope(), a.GetIsAromatic()))
+            info = a.GetPDBResidueInfo()
+            pdb.add(None if info is None else (info.GetResidueName(), info.GetResidueNumber()))
+        if len(pdb) != 1 or None in pdb:
+            o.problems.append(("C05", "pdb-residue-info", f"atoms of residue {i} ({text}) carry residue labels {sorted(map(str, pdb))}"))
         if atoms != tr.atoms:
             o.problems.append(("C05", "residue-atoms", f"residue {i} ({text}) has atoms {atoms}, token denotes {tr.atoms}"))
         if sorted(intra[i]) != tr.bonds:
